@@ -82,11 +82,14 @@ type session struct {
 	user                        string
 	userAgent                   string
 	mpegtsDemuxer               *mpegtsDemuxer
+
+	closed chan struct{}
 }
 
 func (s *session) initialize() {
 	s.uuid = uuid.New()
 	s.created = time.Now()
+	s.closed = make(chan struct{})
 
 	s.inboundRTPPacketsLost = &counterdumper.Dumper{
 		OnReport: func(val uint64) {
@@ -176,6 +179,8 @@ func (s *session) onClose(err error) {
 	s.inboundRTPPacketsLost.Stop()
 
 	s.Log(logger.Info, "destroyed: %v", err)
+
+	close(s.closed)
 }
 
 // onAnnounce is called by rtspServer.
